@@ -308,12 +308,27 @@ namespace rkverif {
         return true;
       }
 
-      int read(uint32_t i)
+      bool readClaimed(uint32_t i, int *out)  // accepted: the slot is claimed with a compare-and-swap
       {
+        uint32_t previous = enki::AtomicCompareAndSwap(&flags[i], 2u, 1u);
+        if (previous != 1u)
+          return false;
         ++readCount;
-        int v    = buf[i];
+        *out     = buf[i];
         flags[i] = 0;
-        return v;
+        return true;
+      }
+
+      bool readTestThenStore(uint32_t i, int *out)  // flagged: two takers can both see the slot readable
+      {
+        uint32_t previous = flags[i];
+        if (1u == previous) {
+          flags[i] = 2;
+          *out     = buf[i];
+          flags[i] = 0;
+          return true;
+        }
+        return false;
       }
     };
 
@@ -474,7 +489,8 @@ namespace rkverif {
       SlotRing ring;
       ring.writeChecked(1);
       ring.writeByCounters(1);
-      ring.read(0);
+      ring.readClaimed(0, &got);
+      ring.readTestThenStore(0, &got);
       registryOnFirstUse();
       registryLeaked();
       (void)w_registryBefore;
